@@ -3,7 +3,7 @@
 From Quiver Require Import sys.Proto sys.ProtoMsg sys.ProtoFail.
 
 Definition park_did (s : sel) : did :=
-  {| d_taken := []; d_sel := Some s; d_act := None; d_park := true; d_fin := None; d_heapy := false |}.
+  {| d_taken := []; d_sel := Some s; d_forget := []; d_act := None; d_park := true; d_fin := None; d_heapy := false |}.
 
 (* a 3-process fan-in on two workers, mid-flight: root 0 (worker 0) spawned the receiver 1
    (worker 1) and the sender 2 (worker 0); three messages to 1 have been sent: one has arrived in
